@@ -908,7 +908,8 @@ class Collocator:
             and flattened. If no common time period could be found, two None
             objects are returned.
         """
-        if max_interval is not None:
+        if max_interval is not None \
+                or start > datetime.min or end < datetime.max:
             timer = Timer().start()
             # We do not have to collocate everything, just the common time
             # period expanded by max_interval and limited by the global start
@@ -955,7 +956,15 @@ class Collocator:
     @staticmethod
     def _get_common_time_period(
             primary, secondary, max_interval, start, end):
-        max_interval = pd.Timedelta(max_interval)
+        if max_interval is None:
+            # Spatial search only: every point may be collocated with every
+            # other one, solely the period of the user limits the data.
+            times = np.hstack([
+                np.ravel(primary.time.values), np.ravel(secondary.time.values)
+            ])
+            max_interval = pd.Timedelta(times.max() - times.min())
+        else:
+            max_interval = pd.Timedelta(max_interval)
 
         # We want to select a common time window from both datasets,
         # aligned to the primary's time coverage. Because xarray has a
